@@ -101,8 +101,19 @@ PLANS["C08"] = {
     "floors": {"quick": {"r_commands_compared": 10000, "clone_pairs": 500}, "thorough": {"r_commands_compared": 500000, "clone_pairs": 20000}},
     "assumptions": ["dump via public read API"],
 }
+def c10_jobs(tier, seed, bin_dir, replay):
+    js = simple_jobs("c10", 1200, 60000, par_n=(100, 3000))(tier, seed, bin_dir, replay)
+    if replay:
+        return js
+    q = tier == "quick"
+    # naive evaluation re-fires every match each iteration: the progress signal must still settle
+    js.append(eggmon(bin_dir, "c10", "c10-naive", seed * 1000 + 55, tier, n=(300 if q else 15000), extra={"naive": 1}))
+    js.append(eggmon(bin_dir, "c10", "c10-naive-par4", seed * 1000 + 56, tier, n=(100 if q else 3000), threads=4, env=ALL_ZERO, extra={"naive": 1}))
+    return js
+
+
 PLANS["C10"] = {
-    "jobs": simple_jobs("c10", 1200, 60000, par_n=(100, 3000)),
+    "jobs": c10_jobs,
     "level": "exploration",
     "technique": "metamorphic runtime monitor: schedule laws on clones + literal reference scheduler driving single iterations",
     "level_text": "For each generated program, pairs of schedules related by the stated laws are run on clones and must end in equal canonical dumps; a reference scheduler in the harness steps rulesets one iteration at a time (stop when the dump does not change), checks :until before every iteration, and re-runs saturated schedules to confirm a fixpoint and updated=false. Missed progress (dump changed, updated=false) is a violation; updated=true with an unchanged dump is only counted.",
@@ -141,6 +152,10 @@ def c06_jobs(tier, seed, bin_dir, replay):
         ("j4-rebuild0", 4, {"EGGLOG_PARALLEL_REBUILD_CUTOFF": "0", "EGGLOG_PARALLEL_DB_LEVEL_OP_CUTOFF": "0"}),
         ("j4-batch7-fork0", 4, _cut(EGGLOG_PARALLEL_ACTION_BATCH_SIZE=7, EGGLOG_PARALLEL_FREE_JOIN_FORK_DEPTH=0)),
     ]
+    # naive evaluation (every match re-fires each iteration) against its own single-threaded reference
+    jobs.append(eggmon(bin_dir, "battery", "refnaive-j1", seed, tier, n=n, threads=1, extra=dict(base, texts=1, naive=1)))
+    for r in range(2 if tier == "quick" else 4):
+        jobs.append(eggmon(bin_dir, "battery", f"naive-j4-zero-r{r}", seed, tier, n=n, threads=4, env=ALL_ZERO, extra=dict(base, naive=1), on_crash="violation", timeout=900))
     if tier != "quick":
         configs += [
             ("j16-zero", 16, ALL_ZERO), ("j3-zero", 3, ALL_ZERO),
@@ -166,16 +181,22 @@ def _cases(rep):
 
 def compare_post(keys, prop, what):
     def post(results, counters, violations, inconclusive, tier):
-        ref = None
+        refs = {}
         for job, rep, status, tail, dt in results:
-            if job["label"].startswith("ref"):
-                ref = _cases(rep)
-        if not ref:
+            if job["label"].startswith("refnaive"):
+                refs["naive"] = _cases(rep)
+            elif job["label"].startswith("ref"):
+                refs["plain"] = _cases(rep)
+        if not refs.get("plain"):
             inconclusive.append("reference child produced no cases")
             return
         compared = 0
         for job, rep, status, tail, dt in results:
             if job["label"].startswith("ref") or rep is None:
+                continue
+            ref = refs.get("naive") if job["label"].startswith("naive") else refs["plain"]
+            if not ref:
+                inconclusive.append("naive reference child produced no cases")
                 continue
             cs = _cases(rep)
             for a, b in zip(ref, cs):
